@@ -19,7 +19,7 @@ pub fn gen_case(r: &mut Rng, out: &mut String) {
         return;
     }
     // mostly small streams so that many corruptions fit in the budget; some with bitset chunks
-    let small = r.chance(2, 3);
+    let small = r.chance(1, 2);
     let g = stream::gen_stream(r, small);
     let reps = if g.bytes.len() > 20000 { 2 } else { 4 };
     for _ in 0..reps {
